@@ -227,3 +227,44 @@ Definition check_code (c : kcase) (o : kobs) : nat :=
     | _, _ => false
     end in
   ((if impl_ok then 0 else 1) + (if spec_ok then 0 else 2))%nat.
+
+(* ================= C03: the conditional posterior handed to the generator, and the row layout ================= *)
+(* observed: the (mean, cov) arguments of rng.multivariate_normal on the posterior path *)
+Record pobs := mk_pobs { po_mean : list Q; po_cov : list (list Q) }.
+Definition sqb (x : bq) : bq := bmul x x.
+(* deviations are measured in units of the posterior width: (m_i - a_i)^2 <= tol2 * A_ii, (cov_ij - A_ij)^2 <= tol2 * A_ii A_jj *)
+Definition post_tol2 : bq := bofQ (1 # 100000000).
+Definition mean_close (A : qmat) (a : list bq) (m : list Q) : bool :=
+  forallb (fun i => bleb (sqb (bsub (B (nth i m 0)) (nth i a b0))) (bmul post_tol2 (nth i (nth i A []) b0))) (seq 0 (length a))
+  && Nat.eqb (length a) (length m).
+Definition cov_close (k : nat) (A : qmat) (cv : list (list Q)) : bool :=
+  forallb (fun i => forallb (fun j =>
+      bleb (sqb (bsub (B (nth j (nth i cv []) 0)) (nth j (nth i A []) b0)))
+           (bmul post_tol2 (bmul (nth i (nth i A []) b0) (nth j (nth j A []) b0)))) (seq 0 k)) (seq 0 k)
+  && Nat.eqb (length cv) k && forallb (fun r => Nat.eqb (length r) k) cv.
+(* bit 0: mean handed to the generator = the model's a;  bit 1: covariance handed = inverse of the model's Ainv;
+   bit 2: the model's (a, Ainv) on the posterior path are EXACTLY the specification's
+          A^-1 = Lambda^-1 + M^T C_s^-1 M,  A^-1 a = Lambda^-1 mu + M^T C_s^-1 y  (same C_s, mu, Lambda, cap as the marginal) *)
+Definition check_post (c : kcase) (o : pobs) : nat :=
+  let '(st2, _) := run_posterior c in
+  let k := n_linear c in
+  match out_vec k (v_a st2), out_mat k k (v_Ainv st2) with
+  | Some a, Some Ai =>
+      match qinv k Ai with
+      | Some A =>
+          ((if mean_close A a (po_mean o) then 0 else 1) + (if cov_close k A (po_cov o) then 0 else 2) +
+           (match spec_run c with
+            | Some so => if blist_eqb a (so_a so) && qmat_eqb Ai (so_Ainv so) then 0 else 4
+            | None => 4 end))%nat
+      | None => 7%nat
+      end
+  | _, _ => 7%nat
+  end.
+
+(* row layout of batch_get_posterior_samples / unpack: sample n contributes n_linear_samples consecutive rows, each the
+   nonlinear parameters followed by one draw, columns in design-matrix order *)
+Definition layout_rows (thetas : list (list Q)) (draws : list (list (list Q))) : list (list Q) :=
+  concat (map (fun td => map (fun d => fst td ++ d) (snd td)) (combine thetas draws)).
+Definition qrows_eqb (x y : list (list Q)) : bool := Corr.list_eqb (Corr.list_eqb Qeq_bool) x y.
+Definition check_layout (thetas : list (list Q)) (draws : list (list (list Q))) (out : list (list Q)) : bool :=
+  qrows_eqb (layout_rows thetas draws) out.
